@@ -76,7 +76,8 @@ def forms():
             out += [f"{na} {o} {nb}" for o in ops]
             out += [f"{na} < {nb}", f"{na} == {nb}", f"{na} and {nb}", f"{na} or {nb}", f"max({na}, {nb})", f"min({na}, {nb})",
                     f"{na} if vb else {nb}", f"{na} + {nb} * 2", f"({na} + {nb}) / 2"]
-    out += ["vl[0]", "vl[0] + vf", "vi / 2", "vi // 2", "7 / 2", "2 ** -1", "vi ** vi", "round(vf)", "vi + True"]
+    out += ["max(vi, vi, vf)", "min(vi, vi, vf)", "max(vi, vb, vi, vf)", "max(vf, vi, vi)", "min(vi, vf, vi)", "abs(vi - vf)", "max(vi, vi, vi)",
+            "vl[0]", "vl[0] + vf", "vi / 2", "vi // 2", "7 / 2", "2 ** -1", "vi ** vi", "round(vf)", "vi + True"]
     return out
 
 
@@ -276,7 +277,7 @@ def extra_obligations(mods, tier, seed):
     i2(P, out)
     i4(P, out)
     i3(P, E, out)
-    i5(out)
+    i5(out, tier)
     return out
 
 
@@ -312,6 +313,9 @@ I5_SCRIPTS = {
     "for-hoisted-int-then-float-same-body": "for i in range(4):\n    ratio = i\n    ratio = ratio / 4\n    mon.write(ratio)\n",
     "for-hoisted-int-then-float-in-function": "def ramp(n):\n    for i in range(n):\n        level = i\n        level = level * 0.375\n    return level\nr = ramp(6)\nmon.write(r)\n",
     "while-hoisted-int-then-float": "k = 0\nwhile k < 3:\n    part = k\n    part = part / 2\n    mon.write(part)\n    k = k + 1\n",
+    "float-assigned-int-in-while-that-does-not-run": "level = 2.5\nk = 5\nwhile k < 3:\n    level = 1\n    k = k + 1\nreading = level\nmon.write(reading)\ndef twice(v):\n    return v * 2\nd = twice(level)\nmon.write(d)\n",
+    "float-assigned-int-in-for-that-does-not-run": "duty = 1.5\nfor i in range(0):\n    duty = 3\nout = duty\nmon.write(out)\n",
+    "max-min-three-operands-float-last": "a = 1\nb = 2\nx = 2.45\nm = max(a, b, x)\nn = min(a + 3, b + 4, x)\nmon.write(m)\nmon.write(n)\ndef top(p, q, r):\n    return max(p, q, r)\nt = top(1, 2, 12.5)\nmon.write(t)\n",
     "int-then-float-reassign": "x = 1\nx = 2.5\nmon.write(x)\n",
 }
 
@@ -383,11 +387,15 @@ def _i5_one(args):
     return name, "ok", None, src
 
 
-def i5(out):
+def i5(out, tier="quick"):
     import multiprocessing as mp
     from progs.corpus import CORPUS, HEAD as CH
     scripts = {f"typed/{k}": CH + v for k, v in I5_SCRIPTS.items()}
     scripts.update({f"core/{k}": v for k, v in CORPUS.items()})
+    if tier == "thorough":
+        from progs.gen import programs
+        for gs in (0, 1, 2):
+            scripts.update({f"core/{k}": v for k, v in programs(150, seed=gs).items()})
     t0 = time.time()
     with mp.Pool(16) as pool:
         res = pool.map(_i5_one, sorted(scripts.items()), chunksize=1)
